@@ -88,6 +88,9 @@ class Window11:
         with set_app(self.app):
             self.buf.set_document(Document(text, cursor), bypass_readonly=True)
             scr = Screen()
+            # one render = one tick of Application.render_counter (as Application._redraw does);
+            # Window caches margin widths and UIContent per (.., render_counter)
+            self.app.render_counter += 1
             self.win.write_to_screen(scr, MouseHandlers(), WritePosition(xpos, ypos, W, H), "", False, None)
             win = self.win
             ri = win.render_info
@@ -274,11 +277,11 @@ def in_scope(cfg, st, obs):
     if pf[0]:
         nl = len(obs["lines"])
         if cfg[0]:
-            ws = [len(prefix_text(pf, l, k)) for l in (0, 1) for k in (0, 1)]
+            ws = [sum(_widths(ch)[1] for ch in prefix_text(pf, l, k)) for l in (0, 1) for k in (0, 1)]
             if max(ws) + maxw > bw:
                 return False
         else:
-            if len(prefix_text(pf, obs["ui_cursor"][0], 0)) + maxw > bw:
+            if sum(_widths(ch)[1] for ch in prefix_text(pf, obs["ui_cursor"][0], 0)) + maxw > bw:
                 return False
     return maxw <= bw
 
@@ -417,29 +420,134 @@ def estimated_height(cfg, obs, l, stop=None):
     return h
 
 
+def _ref_down_loop(heights, bound, at_end_zero, n, prev):
+    used = 0
+    for lineno in range(n - 1, -1, -1):
+        used += heights[lineno]
+        if used > bound:
+            return prev
+        prev = lineno
+    return 0 if at_end_zero else prev
+
+
+def _ref_do_scroll(cur, so_start, so_end, pos, wsize, csize, allow):
+    so_start = int(min(so_start, wsize / 2, pos))
+    so_end = int(min(so_end, wsize / 2, csize - 1 - pos))
+    if cur < 0:
+        cur = 0
+    if not allow and cur > csize - wsize:
+        cur = max(0, csize - wsize)
+    if cur > pos - so_start:
+        cur = max(0, pos - so_start)
+    if cur < (pos + 1) - wsize + so_end:
+        cur = (pos + 1) - wsize + so_end
+    return cur
+
+
+def ref_wrap_visible(cfg, obs):
+    """Would the cursor be visible from the same previous scroll state if the
+    wrapping scroller were given the DISPLAYED row counts (greedy packing)
+    instead of its source-width estimate?  Used only to decide whether a
+    failure is explained by the height estimate (known findings F13 / F14)."""
+    row, col = obs["ui_cursor"]
+    H, top, bottom, allow = obs["H"], cfg[2][0], cfg[2][1], cfg[6]
+    packed = [packed_rows(cfg, obs, l) for l in range(len(obs["lines"]))]
+    if any(p is None for p in packed):
+        return False
+    heights = [len(p) for p in packed]
+    kc = [i for i, r in enumerate(packed[row]) if col in r][0]
+    pvs, pvs2 = obs["prev"][0], obs["prev"][1]
+    if heights[row] > H - top:
+        vs = row
+        v2 = min(kc, heights[row] - H, pvs2)
+        v2 = max(0, kc + 1 - H, v2)
+    else:
+        v2 = 0
+        n = len(heights)
+        T = _ref_down_loop(heights, H, False, n, n - 1)
+        m = _ref_down_loop(heights, H - bottom, True, row + 1, row)
+        M = _ref_down_loop(heights, top, False, row, row)
+        vs = max(pvs, min(T, m))
+        vs = min(vs, M)
+        if not allow:
+            vs = min(vs, T)
+    if not 0 <= vs <= row:
+        return False
+    y = sum(heights[vs:row]) - v2 + kc
+    return 0 <= y < H
+
+
+def ref_nowrap_visible(cfg, obs):
+    """The same for the horizontal axis: cursor position, content size and the
+    skipped characters measured in DISPLAYED cells (known finding F13b)."""
+    row, col = obs["ui_cursor"]
+    line = obs["lines"][row]
+    H, bw, allow = obs["H"], obs["bw"], cfg[6]
+    top, bottom, left, right = cfg[2]
+    pvs, _, phs = obs["prev"]
+    vs = _ref_do_scroll(pvs, top, bottom, row, H, len(obs["lines"]), allow)
+    if not vs <= row < vs + H:
+        return False
+    dws = [_widths(ch)[1] for ch in line]
+    p = sum(_widths(ch)[1] for ch in prefix_text(cfg[3], row, 0)) if cfg[3][0] else 0
+    pos = sum(dws[:col])
+    hs = _ref_do_scroll(phs, left, right, pos, bw - p, max(sum(dws), phs + bw), allow)
+    h, k = hs, 0
+    while h > 0 and k < len(line):
+        h -= dws[k]
+        k += 1
+    if col < k:
+        return False
+    x = p - h + sum(dws[k:col])
+    return 0 <= x < bw
+
+
+def zero_width_after_full_row(cfg, obs):
+    """C11-F2 exactly: wrapping, the cursor is on a zero-width character and the
+    cells before it fill the row (x == body width), so copy_line neither wraps
+    nor registers it."""
+    row, col = obs["ui_cursor"]
+    line = obs["lines"][row]
+    if not cfg[0] or _widths(line[col])[1] != 0:
+        return False
+    pr = packed_rows(cfg, obs, row)
+    if pr is None:
+        return False
+    k = [i for i, r in enumerate(pr) if col in r][0]
+    pw = sum(_widths(ch)[1] for ch in prefix_text(cfg[3], row, k)) if cfg[3][0] else 0
+    x = pw + sum(_widths(line[c])[1] for c in pr[k] if c < col)
+    return x == obs["bw"]
+
+
 def cause_of(cfg, st, obs):
     """Input-side root cause tag of a cursor-visibility failure (used only to
-    tag violations, so that a known finding matches exactly its own family)."""
+    tag violations, so that a known finding matches exactly its own family):
+    a failure counts as explained by a known root cause only if the root cause
+    is present AND removing it (display-width heights / positions, same previous
+    scroll state) would make the cursor visible."""
     row, col = obs["ui_cursor"]
     if not (0 <= row < len(obs["lines"]) and 0 <= col < len(obs["lines"][row])):
         return "content-cursor-outside-line"
-    under = obs["lines"][row][col]
-    if _widths(under)[1] == 0:
-        return "zero-width-cursor"
     if cfg[0]:
+        if zero_width_after_full_row(cfg, obs):
+            return "zero-width-after-full-row"
+        differs = False
         for l in range(len(obs["lines"])):
             pr = packed_rows(cfg, obs, l)
             if pr is None or len(pr) != estimated_height(cfg, obs, l):
-                return "height-estimate"
-        # rows of the text up to and including the cursor cell, against the estimate
-        # for that slice (what _scroll_when_linewrapping uses for vertical_scroll_2)
-        pr = packed_rows(cfg, obs, row)
-        upto_rows = [i for i, r in enumerate(pr) if col in r][0] + 1
-        if upto_rows != estimated_height(cfg, obs, row, col + 1):
+                differs = True
+                break
+        if not differs:
+            # the slice estimate up to and including the cursor cell (vertical_scroll_2)
+            pr = packed_rows(cfg, obs, row)
+            upto_rows = [i for i, r in enumerate(pr) if col in r][0] + 1
+            differs = upto_rows != estimated_height(cfg, obs, row, col + 1)
+        if differs and ref_wrap_visible(cfg, obs):
             return "height-estimate"
         return "none"
     line = obs["lines"][row]
-    if any(_widths(ch)[0] != _widths(ch)[1] for ch in line):
+    pfx = prefix_text(cfg[3], row, 0) if cfg[3][0] else ""
+    if any(_widths(ch)[0] != _widths(ch)[1] for ch in line + pfx) and ref_nowrap_visible(cfg, obs):
         return "hscroll-width"
     return "none"
 
